@@ -8,7 +8,7 @@ import (
 
 // C11: an Ask returns its own handler's answer or an error, never another's.
 
-// verif: replay=schedule unwind=8 preempt=3/5 cover=both-answered bounds="AskHub: 2 concurrent askers with symbolic 1-byte requests and own buffers, 2 servers serving one ask each, handler result symbolic in {-1,1}; at most 3 (quick) / 5 (thorough) preemptions"
+// verif: replay=schedule unwind=8 preempt=3/4 cover=both-answered bounds="AskHub: 2 concurrent askers with symbolic 1-byte requests and own buffers, 2 servers serving one ask each, handler result symbolic in {-1,1}; at most 3 (quick) / 4 (thorough) preemptions"
 func VH_C11_askHubOwnAnswer() bool {
 	h := NewAskHub[vAddr]()
 	ctx := vNewCtx()
